@@ -398,6 +398,27 @@ pub fn shard_child(args: &[String]) -> i32 {
         shard: Some((args[3].parse().unwrap_or(0), args[4].parse().unwrap_or(1))),
         lane_cap_s: Some((std::env::var("VERIF_THOROUGH_SECS").ok().and_then(|v| v.parse::<u64>().ok()).unwrap_or(600) / 3).max(20)),
     };
+    if args[0] == "decoder" {
+        let out = args[5].clone();
+        std::thread::spawn(move || loop {
+            std::thread::sleep(std::time::Duration::from_millis(500));
+            let stuck = match &*CURRENT.lock().unwrap() {
+                Some((i, t0, input, label)) if t0.elapsed().as_secs() >= 20 => Some((*i, input.clone(), label.clone())),
+                _ => None,
+            };
+            if let Some((i, input, label)) = stuck {
+                let mut rep = Report::new();
+                rep.violation(
+                    "C11:decoder:busy-for-20s-on-one-complete-input(neither-delivered-nor-rejected)",
+                    format!("{} octets ({}): {}{}", input.len(), label, ber::hex(&input[..input.len().min(160)]), if input.len() > 160 { "..." } else { "" }),
+                    json!({"lane":"decoder","case":i,"input_hex":ber::hex(&input[..input.len().min(300)])}),
+                );
+                rep.case(Some(fnv(&input)));
+                let _ = std::fs::write(&out, serde_json::to_string(&rep.to_json("decoder")).unwrap_or_default());
+                std::process::exit(0);
+            }
+        });
+    }
     let rep = match args[0].as_str() {
         "decoder" => decoder_inner(&ctx),
         _ => driver_inner(&ctx),
@@ -416,11 +437,22 @@ pub fn decoder(ctx: &Ctx) -> Report {
     sharded(ctx, "decoder")
 }
 
+/// The input a shard child is decoding right now, for the wall-clock monitor of `shard_child`: a decode that
+/// is still running after 20 s on at most a megabyte of input will not end in any useful time.
+static CURRENT: std::sync::Mutex<Option<(u64, std::time::Instant, Vec<u8>, String)>> = std::sync::Mutex::new(None);
+
 fn decoder_inner(ctx: &Ctx) -> Report {
     let n = ctx.n(4_000_000, 2_000_000_000);
+    let watched = ctx.shard.is_some();
     par_cases(ctx, "decoder", n, ctx.secs(30, 900), |i, rng, rep| {
         let (input, label) = hostile_input(rng, 1 + rng.clone().below(1000) as i64);
+        if watched {
+            *CURRENT.lock().unwrap() = Some((i, std::time::Instant::now(), input.clone(), label.clone()));
+        }
         judge_decoder(&input, &label, rep, json!({"lane":"decoder","case":i,"input_hex":ber::hex(&input[..input.len().min(300)])}));
+        if watched {
+            *CURRENT.lock().unwrap() = None;
+        }
         if i < 3 {
             rep.sample(json!({"lane":"decoder","case":i,"input_hex":ber::hex(&input[..input.len().min(80)]),"kind":label}));
         }
